@@ -227,6 +227,10 @@ def client(ctx, prog, ev, hier):
            func=q)
     allrets = dl.stmts(ast.Return)
     ctx.ob("C10-D3/EXIT", len(allrets) == len(rets), dl.site(), "every return is (bytes, protocol-or-closed)", func=q)
+    # no exit falls off the end (the caller unpacks the pair; an invalid-blob handler that stops returning would also stop closing)
+    ok = not R.falls_through(dl.node.body)
+    ctx.ob("C10-D3/EXIT", ok, dl.site(), "no path of _download_blob falls off the end: the body and every handler leave through a return / raise (no implicit `None` exit "
+           "that neither reports bytes nor closes)", func=q, key="C10-D3/EXIT|_download_blob|no-fallthrough")
 
     av = R.one_name(ctx, "C10-D3/GATE", dl, lambda v: isinstance(v, ast.Call) and call_name(v) == "get_availability_response", "the availability response")
     pr = R.one_name(ctx, "C10-D3/GATE", dl, lambda v: isinstance(v, ast.Call) and call_name(v) == "get_price_response", "the price response")
@@ -252,6 +256,9 @@ def client(ctx, prog, ev, hier):
     for r in succ:
         for g, what, k in checks:
             R.gate(ctx, "C10-D3/GATE", dl, r, g, f"success only if {what}", key=f"C10-D3/GATE|_download_blob|{k}")
+        # ... and on nothing else: an honest peer that passes these checks is never refused for another reason (the converse half)
+        R.only_terms(ctx, "C10-D3/GATE", dl, r, [g for g, _w, _k in checks] + ["self.peer_address", "self.connection_manager"],
+                     "success depends on the response checks only (no further condition refuses an honest peer)", key="C10-D3/GATE|_download_blob|only")
         # waits precede success
         def is_wait_writer(n):
             return isinstance(n, ast.Await) and isinstance(n.value, ast.Call) and dotted(n.value.func) == "asyncio.wait_for" \
